@@ -274,12 +274,18 @@ func (fs LocalFileSystem) Copy(ctx context.Context, src, dst string, options *Co
 			return err
 		}
 
+		rel, err := filepath.Rel(srcPath, p)
+		if err != nil {
+			return err
+		}
+		dst := filepath.Join(dstPath, rel)
+
 		if fi.IsDir() {
-			if err := os.Mkdir(dstPath, srcPerm); err != nil {
+			if err := os.Mkdir(dst, srcPerm); err != nil {
 				return errFromOS(err)
 			}
 		} else {
-			if err := copyRegularFile(srcPath, dstPath, srcPerm); err != nil {
+			if err := copyRegularFile(p, dst, srcPerm); err != nil {
 				return err
 			}
 		}
